@@ -91,6 +91,8 @@ func jailMain() int {
 		res, err = jailCopy(req.Arg)
 	case "sync":
 		res, err = jailSync(req.Arg)
+	case "walk":
+		res, err = jailWalk(req.Arg)
 	default:
 		err = fmt.Errorf("unknown op %q", req.Op)
 	}
